@@ -386,6 +386,10 @@ func (bsp *batchSpanProcessor) enqueueBlockOnQueueFull(ctx context.Context, sd R
 		return true
 	case <-ctx.Done():
 		return false
+	case <-bsp.stopCh:
+		// The processor is shut down: nothing reads the queue anymore, do not
+		// block on it forever.
+		return false
 	}
 }
 
